@@ -698,6 +698,14 @@ func (r *realm) authClient(sid wamp.ID, client wamp.Peer, details wamp.Dict) (*w
 
 // getAuthenticator finds the first authenticator registered for the methods.
 func (r *realm) getAuthenticator(methods []string) (auth auth.Authenticator, authMethod string) {
+	// A client may be attaching while the realm is being closed. The lock is
+	// held in mutual exclusion with the closing of the realm, which ends by
+	// closing the action channel; nothing may be sent to it after that.
+	r.closeLock.Lock()
+	defer r.closeLock.Unlock()
+	if r.closed {
+		return nil, ""
+	}
 	sync := make(chan struct{})
 	r.actionChan <- func() {
 		// Iterate through the methods and see if there is an Authenticator for
